@@ -111,6 +111,11 @@ func compareBackends(c *ProgCase, r *CaseRun) (err error, skipFamily string) {
 			continue
 		}
 		if len(a.Probs) > 0 || len(b.Probs) > 0 || a.Val == nil || b.Val == nil {
+			// F12 (open): one instant in two zones is two map keys; the checked walk reads that as
+			// two entries under one key. Same family as in C01 / C18, excluded and counted.
+			if strings.Contains(strings.Join(append(append([]string(nil), a.Probs...), b.Probs...), " "), "two entries denote the same key @") && excludedFamily("equal-instants-different-zones") {
+				return nil, "known:equal-instants-different-zones"
+			}
 			return fmt.Errorf("malformed result: %s: %v / %s: %v\n src: %s", a.O.Be, a.Probs, b.O.Be, b.Probs, clip(r.Src)), ""
 		}
 		if !m.Identical(a.Val, b.Val) {
